@@ -73,6 +73,9 @@ class Item(object):
 
 
 def discharge(item, timeout_ms, second_opinion=False):
+    if Z.is_true(item.goal):
+        item.result, item.by, item.seconds = 'discharged', 'simplifier', 0.0
+        return item
     asserts = Z.AXIOMS.terms() + list(item.assertions) + [Z.Not(item.goal)]
     r, m, dt = Z.check(asserts, timeout_ms, want_model=True)
     item.seconds = dt
@@ -152,6 +155,9 @@ class PropertyCheck(object):
             if c.trusted:
                 self.assumptions.append('trusted contract on %s: %s' % (t, c.note))
                 continue
+            if c.heavy and os.environ.get('PYVC_SERIAL') != '1':
+                self._add_parallel(E, t, c)
+                continue
             try:
                 res = E.verify(t)
             except Exception as e:
@@ -165,6 +171,33 @@ class PropertyCheck(object):
                 self.items.append(Item(o.clause, o.kind, o.pc, o.goal, o.func, o.lineno, o.note, dict(o.extra, trail=o.trail, target=t)))
             if not res.obligations and not res.undecided:
                 self.errors.append('vacuity: no obligations generated for %s' % t)
+
+    def _add_parallel(self, E, t, c):
+        from . import par
+        tmo = THOROUGH_TIMEOUT_MS if self.tier == 'thorough' else QUICK_TIMEOUT_MS
+        try:
+            info, records, undec, errors, paths = par.verify_parallel(
+                E, t, tmo, self.pid if self.props_mod is not None else None, here=HERE)
+        except Exception:
+            self.errors.append('parallel engine crash in %s: %s' % (t, traceback.format_exc()[-1500:]))
+            return
+        self.functions.append({'function': t, 'file': info.file, 'lines': info.span, 'sha1': info.hash,
+                               'paths': paths, 'obligation_instances': len(records), 'explored': 'parallel'})
+        for why, line in undec:
+            self.undecided.append((why, line, t))
+        for e in errors:
+            self.errors.append('worker crash in %s: %s' % (t, e))
+        for kind, rec in records:
+            if kind == 'local':
+                self.items.append(rec)
+                continue
+            it = Item(rec['clause'], rec['kind'], None, None, rec['func'], rec['lineno'], rec['note'], rec['extra'])
+            it.result, it.seconds, it.by = rec['result'], rec['seconds'], rec['by']
+            it.model_text = rec.get('model')
+            it.smt_tail = rec.get('smt_tail')
+            self.items.append(it)
+        if not records and not undec:
+            self.errors.append('vacuity: no obligations generated for %s' % t)
 
     def refute_ground(self, E, lengths=(0, 1, 2)):
         """Refutation mode for functions with undecided clauses (DESIGN.md 2.9)."""
@@ -334,7 +367,7 @@ def finish(pc, props_mod):
             it = a['refuted'][0]
             rep = {'property': pid, 'obligation': clause, 'kind': it.kind, 'function': it.func, 'line': it.lineno,
                    'note': it.note, 'solver': it.by, 'solver_verdict': 'sat (negated obligation has a model)',
-                   'model': model_text(it.model), 'path_decisions': it.extra.get('trail'),
+                   'model': model_text(it.model) if it.model is not None else getattr(it, 'model_text', None), 'path_decisions': it.extra.get('trail'),
                    'extra': dict((k, v) for k, v in it.extra.items() if k != 'trail' and isinstance(v, (str, int, float, list, dict, type(None))))}
             reproduced = False
             conc = it.concretise or getattr(props_mod, 'concretise', None)
@@ -351,6 +384,19 @@ def finish(pc, props_mod):
                         reproduced = bool(out.get('fails'))
                 except Exception as e:
                     rep['replay_error'] = repr(e)
+            if not reproduced and hasattr(props_mod, 'search'):
+                # the solver refuted the clause but its model could not be concretised:
+                # bounded native search for an input exhibiting the failure
+                try:
+                    found = props_mod.search(pc, it)
+                    if found is not None:
+                        rep['concretised_input'] = found
+                        out = native(found['script'], found['case'], repo_root=(pc.E.repo.root if pc.E else None))
+                        rep['native_observation'] = out
+                        rep['input_found_by'] = 'bounded native search seeded by the refuted obligation'
+                        reproduced = bool(out.get('fails'))
+                except Exception as e:
+                    rep['search_error'] = repr(e)
             in_baseline = baseline is not None and clause in baseline
             fn = 'replays/%s-%s.json' % (pid, hashlib.sha1(clause.encode()).hexdigest()[:10])
             with open(os.path.join(HERE, fn), 'w') as f:
@@ -387,7 +433,7 @@ def finish(pc, props_mod):
     samples = []
     for it in pc.items[:3]:
         try:
-            smt = Z.to_smt2(list(it.assertions) + [Z.Not(it.goal)])
+            smt = getattr(it, 'smt_tail', None) or Z.to_smt2(list(it.assertions) + [Z.Not(it.goal)])
             samples.append({'clause': it.clause, 'kind': it.kind, 'result': it.result, 'smtlib_tail': smt[-1200:]})
         except Exception:
             samples.append({'clause': it.clause, 'kind': it.kind, 'result': it.result})
@@ -469,7 +515,8 @@ def run_canaries(pc, props_mod, limit=None):
                 if not failed:
                     # one failing obligation is enough; short budget, no refutation search
                     for it in sub.items:
-                        discharge(it, 5000)
+                        if it.result is None:
+                            discharge(it, 5000)
                         if it.result != 'discharged':
                             failed = True
                             break
